@@ -17,6 +17,13 @@ from rig.common import hexs, unhex, kv
 EOVERFLOW = 75
 DRV = "/verif/harness/c15_drv.c"
 
+def batch(exe, lines, timeout):
+    """common.batch_run, cut short after 8 deaths of the driver (each one is reported): code that never returns must end in a
+    verdict within the tier's time, not in a rig timeout; the lines behind the cut are not run (not_run)"""
+    return common.batch_run(exe, lines, timeout=timeout, max_crashes=8, on_excess="skip")
+def not_run(a):
+    return isinstance(a, dict) and bool(a.get("skipped"))
+
 def hx(seq): return hexs(bytes(seq))
 
 def par(jobs, n=4):
@@ -82,8 +89,9 @@ def dns_msg_part(ctx, exe, cfgs, G):
         idx = [i for i, c in enumerate(cases) if c["ops"]]
         runs = []
         for bname, bexe in exe:
-            runs += [(i, a, bname) for i, a in zip(idx, common.batch_run(bexe, [lines[i] for i in idx], timeout=600))]
+            runs += [(i, a, bname) for i, a in zip(idx, batch(bexe, [lines[i] for i in idx], 600))]
         for i, a, bname in runs:
+            if not_run(a): continue
             c = cases[i]; ln = lines[i]; ops = c["ops"]; last = ops[-1]
             ctx.add(evaluations=1)
             classes[(last["op"], last["rc"])] = classes.get((last["op"], last["rc"]), 0) + 1
@@ -160,8 +168,9 @@ def dns_name_part(ctx, exe, cfgs, G):
         lines = ["dnsname %s %s" % (hx(c["name"]), hx(c["wire"])) for c in cases]
         runs = []
         for bname, bexe in exe:
-            runs += [(c, ln, a, bname) for c, ln, a in zip(cases, lines, common.batch_run(bexe, lines, timeout=300))]
+            runs += [(c, ln, a, bname) for c, ln, a in zip(cases, lines, batch(bexe, lines, 300))]
         for c, ln, a, bname in runs:
+            if not_run(a): continue
             ctx.add(evaluations=1); cls[c["class"]] = cls.get(c["class"], 0) + 1
             rp = {"case": ln, "cfg": cfg, "lens": str(c["lens"]), "build": bname}
             if isinstance(a, dict):
@@ -222,7 +231,8 @@ def dns_compr_part(ctx, exe, cfgs, G):
             nlab |= {x["nlabels"] for x in recs}
             ncomp += 1
         for bname, bexe in exe:
-            for ln, (c, how, msg), a in zip(lines, meta, common.batch_run(bexe, lines, timeout=300)):
+            for ln, (c, how, msg), a in zip(lines, meta, batch(bexe, lines, 300)):
+                if not_run(a): continue
                 ctx.add(evaluations=1); recs = c["recs"]
                 rp = {"case": ln, "cfg": cfg, "scenario": c["no"], "build": bname}
                 tagc = "" if how != "compressed" else ":compressed"
@@ -309,8 +319,9 @@ def rad_build_part(ctx, exe, cfgs, G):
         lines = ["radb %d %s" % (cases[i]["cap"], ";".join(rad_op_token(o) for o in cases[i]["ops"])) for i in idx]
         runs = []
         for bname, bexe in exe:
-            runs += [(i, ln, a, bname) for i, ln, a in zip(idx, lines, common.batch_run(bexe, lines, timeout=600))]
+            runs += [(i, ln, a, bname) for i, ln, a in zip(idx, lines, batch(bexe, lines, 600))]
         for i, ln, a, bname in runs:
+            if not_run(a): continue
             c = cases[i]; ops = c["ops"]; last = ops[-1]
             ctx.add(evaluations=1)
             kcls = (last["op"] if last["op"] != "add" else "add", last["rc"]); classes[kcls] = classes.get(kcls, 0) + 1
@@ -452,10 +463,11 @@ def rad_sign_part(ctx, exes, corpus):
     for n in pwl:
         pws.append((rb(rng, 16), nz(rng, n), rng.choice([b"k", b"xyzzy5461", nz(rng, 39), nz(rng, 40), nz(rng, 70)])))
     lines += ["radp %s %s %s" % (hx(a), hx(p), hx(k)) for a, p, k in pws]
-    res = common.batch_run(exe, lines, timeout=600)
+    res = batch(exe, lines, 600)
     events = []; meta = []
     L = lambda b: list(b)
     for i, (ln, a) in enumerate(zip(lines, res)):
+        if not_run(a): continue
         rp = {"case": ln}
         if isinstance(a, dict):
             k = a["crash"]; ctx.fail("radius:%s:%s:%s" % ("sign-verify" if ln.startswith("rads") else "password", k[0], k[1]), a["raw"], rp); continue
